@@ -53,14 +53,15 @@ theorem c04_fetch_once (f : Sem) (j : Job) (cl : Cluster) (wf : WF j cl) (s : Sy
     ∀ ds, (s.env.outstanding.filter (isFetchOf ds)).length ≤ 1 :=
   (invAll_reachable f j cl wf s hr).h3.fetch_count
 
-/-- **Completion is read off the LAST output only.** A dataset is queued for purging, and purged, only after the notice
-of the last output (in index = declaration order, the order in which a body publishes) of every task that consumes it
-has been processed by the controller — not merely after that task has started or published something. -/
+/-- **Completion is read off the notices of ALL outputs.** A dataset is queued for purging, and purged, only after the
+notices of all outputs — in particular of the LAST one (in index = declaration order, the order in which a body
+publishes) — of every task that consumes it have been processed by the controller, in whatever order they arrived; not
+merely after that task has started or published something. -/
 theorem c04_purge_after_last_notice (f : Sem) (j : Job) (cl : Cluster) (wf : WF j cl) (s : Sys) (hr : Reachable f j cl s)
     (ds : Ds) (hp : ds ∈ s.ctl.purgeQ ∨ ∃ h, (h, ds) ∈ s.env.purged) :
-    ∀ t, t ∈ j.consumers ds → s.ctl.doneC t = true ∧ s.ctl.announced ⟨t, j.nOut t - 1⟩ = true := by
+    ∀ t, t ∈ j.consumers ds → s.ctl.doneC t = true ∧ s.ctl.announced ⟨t, j.nOut t - 1⟩ = true ∧
+      ∀ k, k < j.nOut t → s.ctl.announced ⟨t, k⟩ = true := by
   have h := invAll_reachable f j cl wf s hr
-  have hl := invL_reachable f j cl s hr
   intro t ht
   have hd : s.ctl.doneC t = true := by
     rcases hp with hq | ⟨hh, hq⟩
@@ -68,7 +69,7 @@ theorem c04_purge_after_last_notice (f : Sem) (j : Job) (cl : Cluster) (wf : WF 
     · cases hdc : s.ctl.doneC t with
       | true => rfl
       | false => exact absurd (Or.inl ⟨t, ht, hdc⟩) (h.h4.purged_unneeded hh ds hq)
-  exact ⟨hd, hl t hd⟩
+  exact ⟨hd, invL_last f j cl wf s hr t hd, invL_reachable f j cl wf s hr t hd⟩
 
 /-- **No purge while a consumer is running** (non-atomic task bodies, Model/CtrlN.lean). When task bodies publish their
 outputs one at a time while they run, with controller rounds, deliveries, transfers and other bodies interleaved in any
@@ -79,7 +80,7 @@ theorem c04_no_purge_while_running (f : Sem) (j : Job) (cl : Cluster) (wf : WF j
     ∀ t, t ∈ j.consumers ds → x.running j t = false := by
   intro t ht
   have hb := reachableN_sys f j cl x hr
-  exact not_running_of_last j x (invN_reachable f j cl wf x hr) t (c04_purge_after_last_notice f j cl wf x.sys hb ds hp t ht).2
+  exact not_running_of_last j x (invN_reachable f j cl wf x hr) t (c04_purge_after_last_notice f j cl wf x.sys hb ds hp t ht).2.1
 
 /-- every invariant of the atomic system holds along non-atomic executions (in particular all monitors stay silent) -/
 theorem c04_nonatomic_monitors (f : Sem) (j : Job) (cl : Cluster) (wf : WF j cl) (x : SysN) (hr : ReachableN f j cl x) :
